@@ -653,6 +653,44 @@ impl Store {
             }
         }
 
+        for (_package, entries) in &self.audits.trusted {
+            for entry in entries {
+                check_criteria(
+                    &self.audits_src,
+                    &valid_criteria,
+                    &mut errors,
+                    &entry.criteria,
+                );
+            }
+        }
+        for (_import_name, import) in &self.config.imports {
+            for (_foreign_criteria, mapped) in &import.criteria_map {
+                check_criteria(&self.config_src, &valid_criteria, &mut errors, mapped);
+            }
+        }
+        // If we're locked, imports.lock is used as-is instead of being replaced
+        // by freshly fetched (and re-mapped) imports, so check its criteria too.
+        if check_file_formatting && self.live_imports.is_none() {
+            for (_import_name, audits_file) in &self.imports.audits {
+                for entry in audits_file.audits.values().flatten() {
+                    check_criteria(
+                        &self.imports_src,
+                        &valid_criteria,
+                        &mut errors,
+                        &entry.criteria,
+                    );
+                }
+                for entry in audits_file.wildcard_audits.values().flatten() {
+                    check_criteria(
+                        &self.imports_src,
+                        &valid_criteria,
+                        &mut errors,
+                        &entry.criteria,
+                    );
+                }
+            }
+        }
+
         // If requested, verify that files in the store are correctly formatted
         // and have no unrecognized fields. We don't want to be reformatting
         // them or dropping unused fields while in CI, as those changes will be
